@@ -478,7 +478,7 @@ pub fn run(_env: &Env, run: &Run) -> (Stats, Coverage) {
             let f = crate::props::c13::decode(idx, k);
             for start in 0..k {
                 for uni in 0..3u8 {
-                    for style in 0..6u8 {
+                    for style in 0..8u8 {
                         for form in 0..4u8 {
                             s3.states += 1;
                             s3.transitions += 1;
